@@ -656,7 +656,7 @@ func (r *vecRun) exec(op vop) error {
 			return err
 		}
 		rd := bytes.NewReader(buf.Bytes())
-		nr, err := fresh.ReadFrom(rd)
+		nr, err := fresh.ReadFrom(srcOf(rd))
 		rest, _ := io.ReadAll(rd)
 		ok := err == nil && bytes.Equal(rest, trailer)
 		// the source (after its WriteTo) and the reloaded index answer a fixed family of queries
